@@ -157,6 +157,7 @@ class Sim:
         self.preempt = preempt
         self.stall_p = stall_p          # probability that a worker step is followed by a stall
         self.stall_max = 12.0
+        self.line_stall_p = 0.0         # chance that a line-level pre-emption also parks the thread for a while
         self.ioerr_hook = None          # (tag, detail) -> True: this durable operation fails with ENOSPC
         self.alloc_hook = None          # (tag, detail) -> True: this allocation fails (MemoryError)
         self.commit_batch = None        # the write batch whose commit is the current / latest durable operation
@@ -301,7 +302,14 @@ class Sim:
             if event == 'line' and not sim.dead:
                 w = getattr(sim.current, 'w', None)
                 if w is not None and sim.ch.chance(sim.line_p):
-                    if (sim.fast_seams and len(sim.workers) == 1 and not sim.loop._ready
+                    if sim.line_stall_p and sim.ch.chance(sim.line_stall_p):
+                        # the thread is descheduled for a while between two source lines: a pure-Python job
+                        # (no storage call) otherwise takes no virtual time and can never overlap timer-driven
+                        # activity of the event loop
+                        w.blocked_until = sim.now + sim.ch.delay(0.001, sim.stall_max)
+                        sim.stats['stall'] += 1
+                        sim.stats['line_stall'] += 1
+                    elif (sim.fast_seams and len(sim.workers) == 1 and not sim.loop._ready
                             and not sim.loop._stopping):
                         return local
                     sim.stats['line_yield'] += 1
